@@ -6,6 +6,7 @@ peer pumped from the selector), and observe what the reader reports. standard-co
 peer's close_notify => exception, never b''/0; plaintext delivered is a prefix made of completely delivered records; clean
 end only after the close_notify; closing sends one (the independent peer's read ends cleanly). Non standard-compatible:
 a cut after the handshake is a clean end-of-stream; a cut inside the handshake is an error and closes the wrapped transport.
+Every reader asks once more after its first verdict: what it is told must not turn from "truncated" into "ended cleanly".
 """
 
 from __future__ import annotations
